@@ -52,6 +52,18 @@ Inductive sorted : blocks -> Prop :=
 | sorted_nil : sorted []
 | sorted_cons b e l : b < e -> (forall b' e', In (b', e') l -> e <= b') -> sorted l -> sorted ((b, e) :: l).
 
+(* smpi_shared_malloc_partial: the private blocks are the complement of the shared blocks inside [0,size) *)
+Fixpoint priv_from (cur size : Z) (shared : blocks) : blocks :=
+  match shared with
+  | [] => if cur <? size then [(cur, size)] else []
+  | (b, e) :: r => (if cur <? b then [(cur, b)] else []) ++ priv_from e size r
+  end.
+Definition priv_blocks (size : Z) (shared : blocks) : blocks := priv_from 0 size shared.
+
+(* an MPI transfer between two partially shared allocations: what must arrive *)
+Definition e2e (ssize : Z) (sshared : blocks) (dsize : Z) (dshared : blocks) (soff doff size : Z) : blocks :=
+  copied (priv_blocks ssize sshared) (priv_blocks dsize dshared) soff doff size.
+
 (** executable entry points for the driver.  input: off size n b1 e1 ... bn en *)
 Definition run_c35_shift (inp : list Z) : list Z :=
   match inp with
@@ -80,6 +92,18 @@ Definition run_c35_copied (inp : list Z) : list Z :=
       let '(s, r1) := take_pairs (Z.to_nat ns) r in
       match r1 with
       | nd :: r2 => flat_pairs (copied s (fst (take_pairs (Z.to_nat nd) r2)) soff doff size)
+      | _ => [-1]
+      end
+  | _ => [-1]
+  end.
+
+(* input: soff doff size ssize ns sshared... dsize nd dshared... *)
+Definition run_c35_e2e (inp : list Z) : list Z :=
+  match inp with
+  | soff :: doff :: size :: ssize :: ns :: r =>
+      let '(s, r1) := take_pairs (Z.to_nat ns) r in
+      match r1 with
+      | dsize :: nd :: r2 => flat_pairs (e2e ssize s dsize (fst (take_pairs (Z.to_nat nd) r2)) soff doff size)
       | _ => [-1]
       end
   | _ => [-1]
